@@ -199,7 +199,7 @@ def run_check(mod, tier, seed, workers=None):
         violations.extend(p['violations'])
         samples.extend(p['samples'][:1])
         for k, c in p['extra'].items():
-            extra[k] = extra.get(k, 0) + c
+            extra[k] = (extra.get(k, 0) + c) if isinstance(c, (int, float)) and not isinstance(c, bool) else c
         totals.add(p['total_cases'])
     if len(totals) != 1:
         raise HarnessError(f'workers disagree on enumeration size: {totals}')
@@ -266,7 +266,7 @@ def run_check(mod, tier, seed, workers=None):
             'distinct_nontrivial': len(nontriv),
             'rule': mod.RULE,
             'samples': samples[:6] or ['(no sample recorded)'],
-            'exhaustive': bool(exhaustive),
+            'exhaustive': bool(exhaustive) and not any(k.startswith(('deviation-bounded', 'configurations-that-reached')) and v for k, v in extra.items()),
             'mode': getattr(mod, 'MODE', ''),
             'universe': uni,
             'distinct_outcomes': len(outcomes),
